@@ -36,9 +36,10 @@ Definition r_nansum_squares (cur_sum next_val : V) (count : Z) : V * Z :=
   else (sq o next_val, count + 1).
 
 Definition r_max (cur_max next_val : V) (count : Z) : V * Z :=
-  if is_null o next_val then (next_val, count)
+  if is_null o next_val then (next_val, count + 1)
   else if truthy count then
-    ((if ltb o cur_max next_val then next_val else cur_max), count + 1)
+    if is_null o cur_max then (cur_max, count + 1)
+    else ((if ltb o cur_max next_val then next_val else cur_max), count + 1)
   else (next_val, count + 1).
 
 Definition r_nanmax (cur_max next_val : V) (count : Z) : V * Z :=
@@ -48,9 +49,10 @@ Definition r_nanmax (cur_max next_val : V) (count : Z) : V * Z :=
   else (next_val, count + 1).
 
 Definition r_min (cur_max next_val : V) (count : Z) : V * Z :=
-  if is_null o next_val then (next_val, count)
+  if is_null o next_val then (next_val, count + 1)
   else if truthy count then
-    ((if ltb o next_val cur_max then next_val else cur_max), count + 1)
+    if is_null o cur_max then (cur_max, count + 1)
+    else ((if ltb o next_val cur_max then next_val else cur_max), count + 1)
   else (next_val, count + 1).
 
 Definition r_nanmin (cur_min next_val : V) (count : Z) : V * Z :=
